@@ -1259,13 +1259,15 @@ fn search_recv(seed: u64, budget: usize, cancel: bool) -> Option<Value> {
         };
         let mut pending: Vec<usize> = if cancel { (0..rng.below(6)).map(|_| rng.below(12)).collect() } else { vec![] };
         let mut cuts = cuts;
-        // now and then (cancel runs): a frame of 70-120 KB arriving in pieces of tens of KB, the receive abandoned after a few of them -
+        // now and then (cancel runs): a frame of 100-120 KB, the receive abandoned after several hundred reads -
         // tens of KB of a partial frame are buffered (msg_pos == 0, a buffer grown far beyond its first step) when the receive restarts
         if cancel && rng.below(64) == 0 {
-            let big = format!(r#"{{"method":"a.S","parameters":{{"s":"{}"}}}}"#, "x".repeat(70_000 + rng.below(50_000)));
+            let big = format!(r#"{{"method":"a.S","parameters":{{"s":"{}"}}}}"#, "x".repeat(100_000 + rng.below(20_000)));
             let mut w2 = big.into_bytes(); w2.push(0); w2.extend_from_slice(&wire); wire = w2;
-            cuts = vec![20_000 + rng.below(30_000)];
-            pending = vec![1 + rng.below(4)];
+            // (the reader offers the transport the free space of its buffer, which grows in 256-byte steps: every read delivers
+            // at most 256 bytes, so the abandonment falls on read number 260-380: 66-97 KB into the frame)
+            cuts = vec![4096];
+            pending = vec![260 + rng.below(120)];
         }
         let failed_sends = if rng.below(6) == 0 { 1 + rng.below(2) } else { 0 };
         let (w2, c2, p2) = (wire.clone(), cuts.clone(), pending.clone());
